@@ -387,9 +387,6 @@ def oracle(case, result):
         for n, c in flat:
             want = raw(n).decode('utf8')
             if c != want:
-                if '\r' in want and c == want.replace('\r\n', '\n').replace('\r', '\n'):
-                    return ('wholeTextFiles:carriage-return-translated',
-                            f'{n!r}: content {want!r} returned as {c!r}')
                 return ('wholeTextFiles:content', f'{n!r}: content {want!r} returned as {c!r}')
         return None
     if kind == 'read':
@@ -581,7 +578,7 @@ def read_cases(rng, tier):
         else:
             files = gen_tree(rng, root, pool, gen_text_content)
             cases.append((kind_, files, root, rng.choice([None, 0, 1, 3, 7]), None))
-    # the known carriage-return behaviour of wholeTextFiles, pinned
+    # carriage returns must survive wholeTextFiles (repaired defect b3a17ea): regression cases
     cases.append(('whole', [(f'{BASE}/w.txt', b'a\r\nb\rc\n')], f'{BASE}/w.txt', None, None))
     cases.append(('whole', [(f'{BASE}/w', 'é\r\n'.encode('utf8'))], f'{BASE}/w', 2, None))
     return cases
